@@ -62,6 +62,12 @@ fn main() {
             let n = |i: usize| args[i].parse::<u64>().unwrap_or(0);
             std::process::exit(fw::worker_main(p, tier, n(4), n(5), n(6), n(7), &args[8]));
         }
+        "show" => {
+            // show <prop> <tier> <section> <idx>: print the input of a case without running it
+            let Some(p) = props::find(&args[2]) else { usage() };
+            let Some(tier) = Tier::parse(&args[3]) else { usage() };
+            println!("{}", p.describe(tier, seed, &args[4], args[5].parse().unwrap_or(0)));
+        }
         "replay" => {
             if args.len() < 4 {
                 usage();
